@@ -40,9 +40,17 @@ def export(module, cfg):
         shutil.rmtree(d, ignore_errors=True)
 
 
-def data_bytes(n):
+def data_bytes(n, frame=0):
+    """Data byte k is a function of k.  With `frame`, the four bytes b'ajkg' (the marker by which the reader
+    recognises embedded shorten data at the START of the data section) are planted at every later read boundary:
+    in an uncompressed file they are ordinary samples."""
     k = np.arange(n, dtype=np.int64)
-    return ((k * 7 + 3 + (k // 251) * 13) % 256).astype(np.uint8)
+    raw = ((k * 7 + 3 + (k // 251) * 13) % 256).astype(np.uint8)
+    if frame:
+        for bs in {16384, max(1, 16384 // frame) * frame}:
+            for off in range(bs, n - 3, bs):
+                raw[off:off + 4] = np.frombuffer(b"ajkg", dtype=np.uint8)
+    return raw
 
 
 def run(tier, seed):
@@ -75,7 +83,7 @@ def run(tier, seed):
     try:
         for k, q in enumerate(rows):
             F, promised, avail, frames = q["F"], q["promised"], q["avail"], q["frames"]
-            raw = data_bytes(avail)
+            raw = data_bytes(avail, F if k % 2 else 0)
             if F % 2 == 0 and k % 3 != 2:
                 nchan, coding, bf = F // 2, "pcm", ("01", "10")[k % 2]
                 hdr = sph_util.header(nchan, promised, 2, bf, "pcm", (1024, 2048)[(k // 2) % 2])
@@ -86,8 +94,8 @@ def run(tier, seed):
                 nchan, coding = F, ("ulaw", "alaw")[k % 2]
                 hdr = sph_util.header(nchan, promised, 1, "1", coding, (1024, 2048)[(k // 2) % 2])
                 codes = raw[: frames * F]
-                dtype_arg = np.uint8 if k % 5 == 0 else None
-                want = codes.copy() if dtype_arg is not None else (ulaw if coding == "ulaw" else alaw)[codes]
+                dtype_arg = (np.uint8, np.int8)[(k // 5) % 2] if k % 5 == 0 else None  # a 1-byte dtype: the raw codes
+                want = codes.astype(dtype_arg) if dtype_arg is not None else (ulaw if coding == "ulaw" else alaw)[codes]
             want = want.reshape((frames,) if nchan == 1 else (frames, nchan))
             if k % 7 == 3:
                 # a well-formed header whose field text (and end_head) runs past byte 1024
